@@ -56,7 +56,12 @@ LdapAlt(kind, m, where, k) ==
    LET idp == Tlv(2, <<m.message_id>>)
        op  == IF kind = "ldap_request" THEN Tlv(128, StartTlsOid) ELSE Tlv(10, <<m.result_code>>) \o Tlv(4, <<>>) \o Tlv(4, <<>>)
        tag == IF kind = "ldap_request" THEN 119 ELSE 120
-   IN  IF where = "outer" THEN TlvLong(48, idp \o Tlv(tag, op), k) ELSE Tlv(48, idp \o TlvLong(tag, op, k))
+       \* RFC 4511 4.1.9 / 4.1.10: LDAPResult may carry referral [3] IMPLICIT SEQUENCE OF LDAPURL (tag 0xA3) - here k URIs "ldap://h"
+       uri == Tlv(4, <<108, 100, 97, 112, 58, 47, 47, 104>>)
+       uris == IF k = 1 THEN uri ELSE uri \o uri
+   IN  IF where = "outer" THEN TlvLong(48, idp \o Tlv(tag, op), k)
+       ELSE IF where = "referral" THEN Tlv(48, idp \o Tlv(tag, op \o Tlv(163, uris)))
+       ELSE Tlv(48, idp \o TlvLong(tag, op, k))
 LdapStartTlsRequest(m)  == Tlv(48, Tlv(2, <<m.message_id>>) \o Tlv(119, Tlv(128, StartTlsOid)))
 LdapStartTlsResponse(m) == Tlv(48, Tlv(2, <<m.message_id>>) \o Tlv(120, Tlv(10, <<m.result_code>>) \o Tlv(4, <<>>) \o Tlv(4, <<>>)))
 
